@@ -190,14 +190,22 @@ def fmt3(ctx: Ctx) -> None:
     # inner stack lines: header dropped, rest extended
     fn = mod.fn("Context._format")
     ext = [c for c in ast.walk(fn) if isinstance(c, ast.Call) and norm(c.func) == "lines.extend"]
-    if len(ext) == 1 and norm(ext[0].args[0]) == "self.inner_stack._format(opts)[1:]":
+    # locals that are, once, self.inner_stack
+    ali = {a_.targets[0].id for a_ in walk_scope(fn) if isinstance(a_, ast.Assign) and len(a_.targets) == 1 and isinstance(a_.targets[0], ast.Name) and norm(a_.value) == "self.inner_stack"
+           and sum(1 for w_ in walk_scope(fn) if isinstance(w_, ast.Name) and w_.id == a_.targets[0].id and isinstance(w_.ctx, ast.Store)) == 1}
+    inner_names = {"self.inner_stack"} | ali
+    if len(ext) == 1 and norm(ext[0].args[0]) in {f"{x_}._format(opts)[1:]" for x_ in inner_names}:
         gs = [norm(gx) for gx, pol in guards_of(mod, ext[0], fn) if pol]
-        if gs == ["self.inner_stack is not None"]:
+        if len(gs) == 1 and gs[0] in {f"{x_} is not None" for x_ in inner_names}:
             ctx.R.ok("FMT-3", "Context._format: inner stack lines follow the context line (its header line dropped)")
         else:
             ctx.R.fail("FMT-3", mod, ext[0], "inner stack lines must be emitted iff there is an inner stack")
-    else:
+    elif len(ext) == 1 and norm(ext[0].args[0]) in {f"{x_}._format(opts)" for x_ in inner_names}:
+        ctx.R.fail("FMT-3", mod, ext[0], "Context._format splices the inner stack's lines *with* its header line (`stackscope.Stack ... (most recent call last):`) into the middle of the tree", construct="inner_stack lines")
+    elif not any("inner_stack" in norm(n_) for n_ in ast.walk(fn) if isinstance(n_, ast.Attribute)):
         ctx.R.fail("FMT-3", mod, fn, "Context._format must splice the inner stack's lines (without its header) after the context line", construct="inner_stack lines")
+    else:
+        ctx.R.undecided("FMT-3", "Context._format reads self.inner_stack but the splice of its lines is not in a recognised form")
 
 
 _NL_SCOPE: List[ast.AST] = []
@@ -1028,12 +1036,30 @@ def fmt10_11(ctx: Ctx) -> None:
         return
     fe = mod.fn("Stack._format_error")
     ys = [y for y in ast.walk(fe) if isinstance(y, ast.Yield) and y.value is not None]
+    yfs = [y for y in ast.walk(fe) if isinstance(y, ast.YieldFrom)]
     if len(ys) >= 2 and any("subline" in norm(y.value) or "line" in norm(y.value) for y in ys[1:]):
         ctx.R.ok("FMT-11", "_format_error yields a heading and every line of the formatted exception")
+    elif ys and yfs:
+        ctx.R.undecided("FMT-11", f"_format_error hands its lines on with `yield from {norm(yfs[0].value)[:50]}`")
     elif len(ys) < 2:
         ctx.R.fail("FMT-11", mod, fe, "_format_error no longer yields the lines of the formatted exception: the error's text is lost", construct="_format_error yields")
     else:
         ctx.R.undecided("FMT-11", "_format_error yields not understood")
+    # what the text is made from, and how it is indented: two ways of losing part of it that are visible in the code
+    calls = [c for c in ast.walk(fe) if isinstance(c, ast.Call)]
+    whole = [c for c in calls if norm(c.func) in ("traceback.format_exception", "format_exception") or (isinstance(c.func, ast.Attribute) and c.func.attr == "format" and "TracebackException" in norm(c.func.value))]
+    parts = [c for c in calls if isinstance(c.func, ast.Attribute) and (c.func.attr == "format_exception_only" or (c.func.attr == "format" and norm(c.func.value).endswith(".stack")))]
+    nochain = [c for c in calls if any(k_.arg == "chain" and isinstance(k_.value, ast.Constant) and k_.value.value is False for k_ in c.keywords)]
+    if nochain or (parts and not whole):
+        at = (nochain or parts)[0]
+        ctx.R.fail("FMT-11", mod, at, f"_format_error builds the error text from `{norm(at)[:60]}`: only the outermost exception's own frames and message are rendered; the exceptions it was raised from "
+                   "(__cause__ / __context__) and the members of an ExceptionGroup -- which is what Stack.error is when several faults were recorded -- are missing from the text", construct="_format_error: exception rendered without its chain")
+    elif whole:
+        ctx.R.ok("FMT-11", f"_format_error renders the whole exception ({norm(whole[0].func)})")
+    ti = [c for c in calls if norm(c.func) in ("textwrap.indent", "indent") and len(c.args) + len(c.keywords) < 3]
+    if ti:
+        ctx.R.fail("FMT-11", mod, ti[0], f"_format_error indents with `{norm(ti[0])[:50]}`: textwrap.indent leaves whitespace-only lines without the prefix, so blank lines inside the error text (multi-line messages, "
+                   "source lines) are not indented like the rest and a reader splitting the section by its indentation cuts it there", construct="_format_error: textwrap.indent skips blank lines")
 
 
 def fmt12(ctx: Ctx) -> None:
@@ -1080,7 +1106,7 @@ def _wild_eq(actual, expected) -> bool:
         # a keyword table: options the reference interface does not have are accepted at a constant (their default);
         # the documented ones must agree
         ed, ad = dict(expected), dict(actual)
-        if set(ed) <= set(ad) and all(ad[k_] in ("True", "False", "None") for k_ in set(ad) - set(ed)):
+        if set(ed) <= set(ad) and all(ad[k_] in ("True", "False", "None") or ad[k_] == k_ for k_ in set(ad) - set(ed)):     # ... or handed on under their own name
             return all(_wild_eq(ad[k_], ed[k_]) for k_ in ed)
     if isinstance(expected, tuple) and isinstance(actual, tuple):
         return len(actual) == len(expected) and all(_wild_eq(a, e) for a, e in zip(actual, expected))
